@@ -28,8 +28,23 @@ static B1: [u8; 1] = [1];
 static B32: [u8; 32] = [9; 32];
 static B5: [u8; 5] = [1, 2, 3, 4, 5];
 
+// extension blocks and randoms that carry meaning for a peer, none for the automaton (the flows are defined on message kinds)
+static X_TICKET: [u8; 7] = [0, 35, 0, 3, 1, 2, 3];
+static X_TICKET0: [u8; 4] = [0, 35, 0, 0];
+static X_TLS13: [u8; 7] = [0, 43, 0, 3, 2, 3, 4];
+static X_SEL13: [u8; 6] = [0, 43, 0, 2, 3, 4];
+static X_PSK_EARLY: [u8; 23] = [0, 42, 0, 0, 0, 45, 0, 2, 1, 1, 0, 41, 0, 7, 0, 1, 9, 0, 0, 0, 0, 0, 0];
+static X_MIX: [u8; 33] = [0, 23, 0, 0, 0, 35, 0, 1, 7, 0, 43, 0, 3, 2, 3, 4, 0, 51, 0, 2, 0, 29, 255, 1, 0, 1, 0, 0, 5, 0, 1, 1, 0];
+static X_BROKEN: [u8; 5] = [0, 35, 0, 9, 1];
+static HRR: [u8; 32] = [0xcf, 0x21, 0xad, 0x74, 0xe5, 0x9a, 0x61, 0x11, 0xbe, 0x1d, 0x8c, 0x02, 0x1e, 0x65, 0xb8, 0x91,
+                        0xc2, 0xa2, 0x11, 0x16, 0x7a, 0xbb, 0x8c, 0x5e, 0x07, 0x9e, 0x09, 0xe2, 0xc8, 0xa8, 0x33, 0x9c];
+static DOWNGRD: [u8; 32] = [5, 5, 5, 5, 5, 5, 5, 5, 5, 5, 5, 5, 5, 5, 5, 5, 5, 5, 5, 5, 5, 5, 5, 5, 0x44, 0x4f, 0x57, 0x4e, 0x47, 0x52, 0x44, 0x01];
+fn xblocks() -> Vec<&'static [u8]> {
+    vec![&X_TICKET[..], &X_TICKET0[..], &X_TLS13[..], &X_SEL13[..], &X_PSK_EARLY[..], &X_MIX[..], &X_BROKEN[..]]
+}
+
 /// payload variants of a message kind (content must not matter)
-pub fn variants(kind: &str) -> Vec<TlsMessage<'static>> {
+fn variants_base(kind: &str) -> Vec<TlsMessage<'static>> {
     use TlsMessageHandshake as H;
     let hs = |h| TlsMessage::Handshake(h);
     match kind {
@@ -103,6 +118,28 @@ pub fn variants(kind: &str) -> Vec<TlsMessage<'static>> {
         "AlertOther" => (0..=255u16).filter(|s| *s != 1).flat_map(|s| (0..=255u8).map(move |c| TlsMessage::Alert(TlsMessageAlert { severity: TlsAlertSeverity(s as u8), code: TlsAlertDescription(c) }))).collect(),
         _ => vec![],
     }
+}
+
+pub fn variants(kind: &str) -> Vec<TlsMessage<'static>> {
+    use TlsMessageHandshake as H;
+    let hs = |h| TlsMessage::Handshake(h);
+    let mut v = variants_base(kind);
+    for x in xblocks() {
+        for r in [&HRR, &DOWNGRD, &R1] {
+            match kind {
+                "ClientHello0" => v.push(hs(H::ClientHello(TlsClientHelloContents::new(0x0303, r, None, vec![TlsCipherSuiteID(0x1301), TlsCipherSuiteID(0x00ff)], vec![TlsCompressionID(0)], Some(x))))),
+                "ClientHello1" => v.push(hs(H::ClientHello(TlsClientHelloContents::new(0x0303, r, Some(&B32), vec![TlsCipherSuiteID(0x1301)], vec![TlsCompressionID(0)], Some(x))))),
+                "ServerHello" => {
+                    v.push(hs(H::ServerHello(TlsServerHelloContents::new(0x0303, r, Some(&B32), 0x1301, 0, Some(x)))));
+                    v.push(hs(H::ServerHello(TlsServerHelloContents::new(0x0301, r, None, 0x2f, 0, Some(x)))));
+                }
+                "ServerHelloV13Draft18" => v.push(hs(H::ServerHelloV13Draft18(TlsServerHelloV13Draft18Contents { version: TlsVersion(0x7f12), random: r, cipher: TlsCipherSuiteID(0x1301), ext: Some(x) }))),
+                "HelloRetryRequest" => v.push(hs(H::HelloRetryRequest(TlsHelloRetryRequestContents { version: TlsVersion(0x0304), cipher: TlsCipherSuiteID(0x1301), ext: Some(x) }))),
+                _ => {}
+            }
+        }
+    }
+    v
 }
 
 fn code(r: Result<Result<TlsState, StateChangeError>, String>) -> String {
